@@ -40,6 +40,9 @@ class AnalysisError(Exception):
     pass
 
 
+MAX_GUESSED_KEYS = 1024
+
+
 def xortool(
     ciphertext: bytes,
     try_chars: list[int],
@@ -195,6 +198,14 @@ def guess_keys(text: bytes, most_char: int, known_key_length: int) -> list[bytes
         for char in chars_count:
             if chars_count[char] >= max_count:
                 key_possible_bytes[offset].append(char ^ most_char)
+
+    # The number of keys is the product of the candidates per offset. On low entropy data almost every byte ties,
+    # so only enumerate them all while that is feasible, otherwise keep the first candidate of each offset (the first key)
+    key_count = 1
+    for possible_bytes in key_possible_bytes:
+        key_count *= len(possible_bytes)
+    if key_count > MAX_GUESSED_KEYS:
+        key_possible_bytes = [possible_bytes[:1] for possible_bytes in key_possible_bytes]
 
     return all_keys(key_possible_bytes)
 
